@@ -976,3 +976,28 @@ func restartHistory(ms []mutation) bool {
 	}
 	return false
 }
+
+// ---- address of the wrong family ----------------------------------------------------------
+
+// addrFamilyFields: the first element of every per-family address list (DDR
+// hints, DNS-check answers) replaced by an address of the other family.
+// Address-typed fields are outside the property's quantifier; the operator is
+// cheap and the DDR query of the script observes the effect.
+func addrFamilyFields(root interface{}) (out []field) {
+	walkLists(root, nil, func(p cfgPath, l []interface{}) {
+		if len(l) == 0 {
+			return
+		}
+		var v string
+		switch k := p.lastKey(); {
+		case k == "ipv4_hints", p.generic() == "check.ipv4":
+			v = "2001:db8::20"
+		case k == "ipv6_hints", p.generic() == "check.ipv6":
+			v = "192.0.2.20"
+		default:
+			return
+		}
+		out = append(out, field{Path: p.child(idx(0)), Kind: "addr", Values: []mutValue{{Class: "wrong-family", Value: v}}})
+	})
+	return out
+}
